@@ -17,17 +17,20 @@ TECHNIQUE = (
     "conformance correspondence of the extracted model against the real server on an in-memory network (exact quiescence)"
 )
 LEVEL_TEXT = (
-    "Proved about the reference model for every history: exactly-one-final-reply shape per command, 502 for unknown verbs, "
-    "503 for out-of-sequence commands, session continues, RNFR/RNTO pairing, re-login resets cwd, REST cleared by every "
-    "non-transfer command; refuted-with-witness: REST with non-decimal digits, EPSV <arg> ends the session after 522, REST offset "
-    "survives a completed transfer. The conformance of the CODE to the model is a relational statement about the code: it is carried "
-    "by the regenerated decorator table (re-checked by vm_compute on every run) and by bounded-exhaustive + random histories run "
-    "against the real server (validation, not proof)."
+    "Proved about the reference model for every world, verb and argument / every history: exactly-one-final-reply shape per command "
+    "(C05_reply_shape: no REST argument can make the handler raise - C05_rest_never_crashes - and the server ends the session itself "
+    "only after QUIT/221), 502 for unknown verbs, 503 for out-of-sequence commands, session continues, RNFR/RNTO pairing, re-login "
+    "resets cwd, the restart offset is seen by the immediately following transfer command and is 0 after every supported command "
+    "other than REST (C05_rest_scopes_one_command, C05_transfer_sees_offset). The defects found earlier (REST with non-decimal digits, "
+    "EPSV <arg> ending the session after 522, REST offset surviving a transfer) were repaired in /repo (known_findings.json 'fixed'); "
+    "their witnesses are now positive Examples and corpus cases. The conformance of the CODE to the model is a relational statement "
+    "about the code: it is carried by the regenerated decorator table and dispatcher facts (re-checked by vm_compute on every run) "
+    "and by bounded-exhaustive + random histories run against the real server (validation, not proof)."
 )
 LEVEL_NOTE = (
     "Trusted: Coq kernel, py2v, extraction, simnet (in-memory transports, virtual clock). Modelled not verified: asyncio scheduling "
     "(one command at a time, no pipelining), ssl, IPv6 listener (PASV 503), per-user connection limits (C10), the real backends "
-    "(the model's tree is POSIX-like; MemoryPathIO divergences are C18 findings)."
+    "(the model's tree is POSIX-like; the three shipped backends are compared in C18)."
 )
 TRUSTED = ["simnet: in-memory transports and virtual clock stand for TCP and wall time"]
 ASSUMPTIONS = ["commands are sent one at a time (the next after all replies of the previous arrived): pipelining is outside the model"]
@@ -221,8 +224,11 @@ def oracles(ctx, table, events, obs, backend="memory"):
             why = "unknown-verb-not-502"
         if why is None and ob["probe"] is not None:
             # REST applies to the immediately following transfer only
-            if v in ("retr", "stor", "appe") and finals[0] in ("226",) and ob["probe"]["rest"] != 0:
+            # (whether the transfer completed, failed or was refused), and to nothing else
+            if v in ("retr", "stor", "appe") and ob["probe"]["rest"] != 0:
                 why = "rest-survives-transfer"
+            elif v not in ("rest", "foo", "noop") and ob["probe"]["rest"] != 0:
+                why = "rest-survives-command"
         if why:
             ctx.violation(
                 f"property oracle: {why}",
